@@ -293,9 +293,8 @@ func (d *decompressor) readMember() error {
 	}
 	skipped := int(d.cr.offset() - mark)
 	need := d.blockSize - skipped
-	if need == 0 {
-		return io.EOF
-	} else if need < 0 {
+	if need <= 0 {
+		// A member cannot end with its header.
 		return ErrCorrupt
 	}
 
